@@ -337,6 +337,12 @@ class Driver:
     def reset(self, state):
         objs = sorted(state["life"].keys())
         self.real.reset(init_pks(objs), expire_on_commit=self.eoc)
+        # cfgs with Start = "committed": bring the real session to the spec's start state (add + commit, not compared)
+        pre = [o for o in objs if state["life"][o] == "persistent"]
+        if pre:
+            for o in pre:
+                self.real.do("Add", o)
+            self.real.do("Commit")
 
     def step(self, frm, act, to):
         a = act["a"]
